@@ -86,6 +86,15 @@ func FreshDevice() *vos.Device {
 	return d
 }
 
+// FreshDeviceFS returns the tree a FreshDevice starts from (without installing anything).
+func FreshDeviceFS() *vos.FS {
+	cur := vos.Cur()
+	d := FreshDevice()
+	f := d.FS().Clone()
+	vos.Install(cur)
+	return f
+}
+
 // Start runs the startup path on the current device. On a startup failure the returned World is nil.
 func Start(cfg Config) (w *World, obs StartObs) {
 	if cfg.Root == "" {
